@@ -148,6 +148,9 @@ func glued(prev, next string) bool {
 	if isWordByte(p) && isWordByte(n) {
 		return true
 	}
+	if p == '.' && n >= '0' && n <= '9' {
+		return true // 1. then 5 isn't 1.5
+	}
 	switch p {
 	case '+', '-', '&', '|', '<', '>', '.':
 		return n == p || n == '='
@@ -158,7 +161,8 @@ func glued(prev, next string) bool {
 	case '/':
 		return n == '/' || n == '*'
 	}
-	return (isWordByte(p) && n == '.' && len(next) > 1 && next[1] >= '0' && next[1] <= '9')
+	// 1 then .5 isn't 1.5, 1 then .. isn't 1..
+	return isWordByte(p) && n == '.' && len(next) > 1 && ((next[1] >= '0' && next[1] <= '9') || next[1] == '.')
 }
 
 // --- AST nodes
@@ -625,13 +629,26 @@ func (ie IndexExpression) PrettyPrint(out *PrintState) *PrintState {
 	if needParen {
 		out.Print("(")
 	}
+	numberDot := false
+	if ie.Token.Type() == token.DOT {
+		switch ie.Left.(type) {
+		case *IntegerLiteral, *FloatLiteral:
+			numberDot = true // (1).a: 1.a is the number 1. followed by a.
+		}
+	}
+	if numberDot {
+		out.Print("(")
+	}
 	ie.Left.PrettyPrint(out)
+	if numberDot {
+		out.Print(")")
+	}
 	out.Print(ie.Literal())
 	out.ExpressionPrecedence = LOWEST
 	plainKey := false
 	switch ie.Index.(type) {
 	case *Identifier, *StringLiteral, *PostfixExpression: // m.k, m."k", m.v++ read back as they are.
-		plainKey = true
+		plainKey = !strings.HasPrefix(ie.Index.Value().Literal(), ".") // (but not the .. identifier: a... )
 	}
 	dotExpr := ie.Token.Type() == token.DOT && !plainKey
 	if dotExpr {
